@@ -13,7 +13,7 @@ use std::rc::Rc;
 pub static ENGINE: Engine = Engine {
     prop: "C20",
     level: "exploration",
-    rule: "every Boolean function f over 4 ordered variables with gaps (65536) and over 3 (256) x filter in {True, False, Any}: g = retain_choice_bottom_up(f, filter); True => every assignment satisfying f satisfies g; False => g implies f; Any => g == f; g ordered and reduced; g tests only variables f semantically depends on; g and all its sub-diagrams are the shared table nodes. CLI: `rsbdd -c t|f|a -t` on every formula <= 3 (4) nodes of the CLI alphabet: the function printed covers (True) / is covered by (False) / equals (Any) the reference. distinct = distinct (f, filter, g) + distinct CLI outputs",
+    rule: "every Boolean function f over 4 ordered variables with gaps (65536) and over 3 (256) x filter in {True, False, Any}: g = retain_choice_bottom_up(f, filter); True => every assignment satisfying f satisfies g; False => g implies f; Any => g == f; g ordered and reduced; g tests only variables f semantically depends on; g and all its sub-diagrams are the shared table nodes. CLI: `rsbdd -c t|f|a -t` on every formula <= 3 (4) nodes of the CLI alphabet: the function printed covers (True) / is covered by (False) / equals (Any) the reference; and -c combined with -f true / -f false / -m (what is listed must stay sound in the direction of -c). distinct = distinct (f, filter, g) + distinct CLI outputs",
     assumptions: &["truth tables by an independent walker", "k <= 4 exhaustively"],
     max_shards: 64,
     run,
@@ -132,6 +132,67 @@ fn check_cli(ctx: &mut Ctx, text: &str, which: usize) {
     }
 }
 
+
+/// `-c` together with a row filter `-f` or with `-m`: what is listed must still be sound
+fn check_cli_combo(ctx: &mut Ctx, text: &str, c_true: bool, mode: usize) {
+    // mode 0: -f true, 1: -f false, 2: -m
+    let case = json!({"part": "cli-combo", "text": text, "c_true": c_true, "mode": mode});
+    ctx.begin_case(|| case.clone());
+    ctx.count("evaluations", 1);
+    ctx.count("cli_runs", 1);
+    let Ok(a) = refl::parse(text) else { return };
+    let names = a.names();
+    let Some(want) = refl::Sem::new(&names).eval_closed(&a) else { return };
+    let cval = if c_true { "true" } else { "f" };
+    let mut opts: Vec<&str> = vec!["-c", cval, "-t"];
+    match mode {
+        0 => opts.extend(["-f", "T"]),
+        1 => opts.extend(["-f", "0"]),
+        _ => opts.push("-m"),
+    }
+    let r = Inv::new(text, &opts).run();
+    let key = format!("{TAG} rsbdd {} : {text}", opts.join(" "));
+    if !r.run.ok() {
+        ctx.violation(key, format!("rsbdd failed: {} {}", r.run.describe(), r.run.err_tail()), case);
+        return;
+    }
+    ctx.distinct(&(c_true, mode, &r.run.stdout));
+    let t = match parse_table(&r.run.out()) {
+        Err(e) => {
+            ctx.violation(key, format!("unreadable table: {e}"), case);
+            return;
+        }
+        Ok(t) => t,
+    };
+    let refv = match project_ref(want, &names, &t.header) {
+        Err(e) => {
+            ctx.violation(key, e, case);
+            return;
+        }
+        Ok(v) => v,
+    };
+    let ts = table_sem(&t);
+    for asg in 0..(1usize << ts.k) {
+        let (lt, lf) = (ts.true_cover[asg] > 0, ts.false_cover[asg] > 0);
+        // g = retain(f): -c true gives g >= f, -c false gives g <= f
+        let bad = match (mode, c_true) {
+            // rows of g that are True
+            (0, true) => (refv[asg] && !lt) || lf,
+            (0, false) => (lt && !refv[asg]) || lf,
+            // rows of g that are False
+            (1, true) => (lf && refv[asg]) || lt,
+            (1, false) => (!refv[asg] && !lf) || lt,
+            // model of g: under -c false every satisfying row of the model satisfies f
+            (_, false) => lt && !refv[asg],
+            (_, true) => false,
+        };
+        if bad {
+            ctx.violation(key, format!("assignment {asg:#b} of {:?}: formula is {}, listed as true={lt} false={lf}", t.header, refv[asg]), case);
+            return;
+        }
+    }
+}
+
 fn run(ctx: &mut Ctx) {
     for k in [3usize, 4] {
         match Space::<usize>::by_interning(&syms_for(k)) {
@@ -160,11 +221,26 @@ fn run(ctx: &mut Ctx) {
                 check_cli(ctx, &refl::pp(a, refl::MINIMAL), which);
             }
         }
+        if a.size() <= 3 {
+            for c_true in [true, false] {
+                for mode in 0..3 {
+                    idx += 1;
+                    if ctx.mine(idx) {
+                        check_cli_combo(ctx, &refl::pp(a, refl::MINIMAL), c_true, mode);
+                    }
+                }
+            }
+        }
     }
     crate::cli::cleanup_scratch();
 }
 
 fn replay(ctx: &mut Ctx, c: &Value) {
+    if c["part"].as_str() == Some("cli-combo") {
+        check_cli_combo(ctx, c["text"].as_str().unwrap_or(""), c["c_true"].as_bool().unwrap_or(true), c["mode"].as_u64().unwrap_or(0) as usize);
+        crate::cli::cleanup_scratch();
+        return;
+    }
     if c["part"].as_str() == Some("cli") {
         check_cli(ctx, c["text"].as_str().unwrap_or(""), c["filter"].as_u64().unwrap_or(0) as usize);
         crate::cli::cleanup_scratch();
